@@ -177,6 +177,9 @@ type c13Op struct {
 //     called repeatedly and from several tasks.
 func c13Extras(env *Env, tape *sim.Tape) *CaseOut {
 	out := &CaseOut{Nontrivial: true}
+	if tape.Draw(8) == 7 {
+		return c13FdBudget(env, tape)
+	}
 	ntasks := 2 + tape.Draw(3)
 	stick := []int{0, 1, 9}[tape.Draw(3)]
 	if tape.Draw(2) == 0 {
